@@ -173,6 +173,7 @@ fn main() {
     }
     if ctx.on("listvar") {
         lowlevel::run_listvar(&mut ctx);
+        lowlevel::run_tryfromiter(&mut ctx);
     }
     if ctx.on("bitops") {
         for_each_bitfield!(run_bitops, &mut ctx);
@@ -195,6 +196,11 @@ fn main() {
             bits::run_resize::<U17, U16>(&mut ctx);
             bits::run_resize::<U64, U1024>(&mut ctx);
             bits::run_resize::<U33, U33>(&mut ctx);
+            bits::run_resize::<U16, U12>(&mut ctx);
+            bits::run_resize::<U16, U9>(&mut ctx);
+            bits::run_resize::<U8, U7>(&mut ctx);
+            bits::run_resize::<U64, U63>(&mut ctx);
+            bits::run_resize::<U1024, U1023>(&mut ctx);
         }
     }
     if ctx.on("serde") {
@@ -202,6 +208,7 @@ fn main() {
         bits::run_serde::<ssz::BitVectorDynamic>(&mut ctx);
     }
     if ctx.on("arb") {
+        bits::run_arb_extremes(&mut ctx);
         for_each_bitfield!(run_arb, &mut ctx);
     }
     if ctx.on("alloc") {
